@@ -39,9 +39,10 @@ RULE = ("seeded random file trees: 2-3 search paths (+0-2 directories reached th
         "__init__.pyi-only directory, optionally with a pkg-stubs package; package directories are filled recursively "
         "(depth<=3) from the names {a,b,sub} in 1-3 forms each (x.py, x.pyi, x/ with and without __init__.py, "
         "x.cpython-312-x86_64-linux-gnu.so, x.abi3.so, x.so, x.pyd, x.pyc, x.cpython-312.pyc, x.pyo, extension-less x, "
-        "x.txt, x.y.py, ...) plus __pycache__, hidden and dotted directories, data files. Each tree is loaded under K "
-        "listing orders by name and by path. distinct = digest of the tree; non-trivial = >=2 search paths and >=1 "
-        "dotted name provided by >=2 different file-system entries")
+        "x.txt, x.y.py, x.y.pyi, ...) plus __pycache__, hidden and dotted directories, data files; in half of the trees a "
+        "part of one path's entries is repeated in a later path so that equal names of equal form meet across paths. Each "
+        "tree is loaded under K listing orders by name and by path. distinct = digest of the tree; non-trivial = >=2 search "
+        "paths and >=1 dotted name provided by >=2 different file-system entries")
 LEVEL_TEXT = ("Each generated tree is written to disk once; CPython (fresh child, sys.path = the search paths) gives "
               "find_spec for every dotted name the tree can spell and pkgutil.walk_packages for the package; the real "
               "GriffeLoader loads it under K injected directory-listing orders (all orders of every directory with <=3 "
@@ -58,7 +59,8 @@ TECHNIQUE = ("runtime monitoring: differential oracle against CPython's import s
 REQUIRED_COUNTERS = ["trees_judged", "loaded_modules_checked_against_find_spec", "walker_modules_checked",
                      "classification_checks", "permutations_compared", "by_path_compared", "listings_permuted",
                      "first_path_wins_checked", "compiled_names_checked", "namespace_packages_checked",
-                     "stub_only_modules_checked", "pth_trees_judged"]
+                     "stub_only_modules_checked", "pth_trees_judged", "file_spells_name_checked",
+                     "by_path_outside_search_paths_compared"]
 EXHAUSTIVE = {"quick": False, "thorough": False}
 ASSUMPTIONS = ["CPython 3.12 on Linux is the reference: .pyd/.pyo and foreign-ABI .so names are not modules there",
                "fake compiled files: discovery is judged at the level of (dotted name, file) handed to the loader",
@@ -66,7 +68,13 @@ ASSUMPTIONS = ["CPython 3.12 on Linux is the reference: .pyd/.pyo and foreign-AB
                "represents the module is not judged (Griffe is a static analyser and inspection is off), only that the "
                "dotted name is present and the result is order-independent",
                ".pth files: only absolute directory lines, comments and blank lines, placed in search paths; every search "
-               "path is treated as a site directory (site.addsitedir) by the reference"]
+               "path is treated as a site directory (site.addsitedir) by the reference",
+               "'requested by path' means the path of the package's top-level *directory* (named like the package); module "
+               "files and <name>-stubs directories given as path are outside the statement",
+               "a stub-only module is accepted where CPython has no source module of that name (or only a module the "
+               "package walker does not reach); nested namespace packages: Griffe's portions must be among CPython's",
+               "as_json(full=True) is taken with the tree's parent as working directory, and falls back to the base dump "
+               "when relative_package_filepath raises for -stubs modules (serialisation, not discovery)"]
 SHARD_TIMEOUT = {"quick": 600, "thorough": 3600}
 
 TOP = "pkg"
